@@ -37,6 +37,7 @@ func features() sqlgen.Features {
 	f.MySQL = hx.Allowed("c03.mysql_forms")
 	f.Partitions = hx.Allowed("c03.partitions")
 	f.QuotedOddNames, f.QuotedDotName, f.QuotedDigitsName = true, true, true
+	f.Corners = true
 	return f
 }
 
